@@ -1,6 +1,15 @@
 //! a64dec — reference decoder for the A64 instructions the dora assembler offers.
-//! Written from the Arm ARM (C4 "A64 instruction set encoding", C6 instruction pages),
-//! NOT from dora-asm/src/arm64.rs. Loop-free; total on u32.
+//! Written from the Arm ARM (C4 "A64 instruction set encoding", C6/C7 instruction pages),
+//! NOT from dora-asm/src/arm64.rs. Loop-free; total on u32; no allocation.
+//!
+//! Conventions of the decoded form
+//!  * register number 31 decodes to `R::Sp` or `R::Zr` exactly as the instruction class reads it;
+//!  * SIMD&FP registers decode to `R::V(n)`; their width is `Insn::size` (bytes);
+//!  * every immediate is fully decoded: add/sub imm12 already shifted, logical immediates expanded
+//!    (DecodeBitMasks), load/store offsets in BYTES, ADRP offset in BYTES (imm21 << 12);
+//!  * branch offsets (`imm` of B/BL/B.cond/CBZ/CBNZ/TBZ/TBNZ, ADR) are in BYTES relative to the
+//!    address of the instruction itself (sign-extended field * 4);
+//!  * anything unallocated / not modelled decodes to `Op::Unknown`.
 #![allow(dead_code)]
 
 /// A register operand as the instruction class reads register number 31.
@@ -9,58 +18,347 @@ pub enum R {
     X(u8), // x0..x30 / w0..w30 (width is Insn::sf)
     Zr,
     Sp,
+    V(u8), // SIMD&FP register 0..31 (width is Insn::size; for FP<->int conversions the FP side)
     None,
 }
 
 #[derive(Copy, Clone, PartialEq, Eq, Debug)]
 pub enum Op {
     Unknown,
-    AddImm,  // ADD  <Rd|SP>, <Rn|SP>, #imm12, LSL #sh
+    // --- data processing, immediate
+    AddImm,  // ADD  <Rd|SP>, <Rn|SP>, #imm
     AddsImm, // ADDS <Rd>, <Rn|SP>, #imm  (CMN alias when Rd = ZR)
     SubImm,
-    SubsImm,
+    SubsImm, // (CMP alias when Rd = ZR)
+    AndImm, // rd: SP-type; imm = expanded bitmask
+    OrrImm,
+    EorImm,
+    AndsImm, // rd: ZR-type
+    Movn,    // imm = imm16, imm2 = shift (0,16,32,48)
+    Movz,
+    Movk,
+    Sbfm, // imm = immr, imm2 = imms
+    Bfm,
+    Ubfm,
+    Extr, // imm = lsb
+    Adr,  // imm = byte offset
+    Adrp, // imm = byte offset (multiple of 4096)
+    // --- branches, exceptions, system
+    B,
+    Bl,
+    BCond,
+    Cbz, // rd = Rt
+    Cbnz,
+    Tbz, // rd = Rt, imm2 = bit number, sf = 64 if bit >= 32 else 32
+    Tbnz,
+    Br,
+    Blr,
+    Ret,
+    Svc,
+    Hvc,
+    Smc,
+    Brk,
+    Hlt,
+    Hint, // imm = CRm:op2 (0 = NOP)
+    Clrex,
+    Dsb, // imm = CRm
+    Dmb,
+    Isb,
+    // --- data processing, register
+    AddSh, // opt = shift type (0 LSL,1 LSR,2 ASR), imm = amount
+    AddsSh,
+    SubSh,
+    SubsSh,
+    AddExt, // opt = extend option 0..7 (UXTB,UXTH,UXTW,UXTX,SXTB,SXTH,SXTW,SXTX), imm = left shift 0..4
+    AddsExt,
+    SubExt,
+    SubsExt,
+    AndSh, // opt = shift type (0..3, 3 = ROR), imm = amount
+    BicSh,
+    OrrSh,
+    OrnSh,
+    EorSh,
+    EonSh,
+    AndsSh,
+    BicsSh,
+    Adc,
+    Adcs,
+    Sbc,
+    Sbcs,
+    Csel,
+    Csinc,
+    Csinv,
+    Csneg,
+    Rbit,
+    Rev16,
+    Rev32,
+    Rev,
+    Clz,
+    Cls,
+    Udiv,
+    Sdiv,
+    Lslv,
+    Lsrv,
+    Asrv,
+    Rorv,
+    Madd,
+    Msub,
+    Smaddl,
+    Smsubl,
+    Smulh,
+    Umaddl,
+    Umsubl,
+    Umulh,
+    // --- loads and stores. rd = Rt, rn = base (SP-type), size = access bytes, sf = width of a GPR Rt
+    //     (0 when Rt is a SIMD&FP register), sign = sign-extending load, imm = byte offset.
+    LdrOff, // unsigned scaled 12-bit offset
+    StrOff,
+    Ldur, // unscaled signed 9-bit offset
+    Stur,
+    LdrPre,
+    StrPre,
+    LdrPost,
+    StrPost,
+    LdrReg, // rm = index, opt = option (2 UXTW, 3 LSL, 6 SXTW, 7 SXTX), imm2 = shift amount
+    StrReg,
+    LdrLit, // imm = byte offset relative to the instruction
+    LdpOff, // rt2 = second register, size = bytes per register
+    StpOff,
+    LdpPre,
+    StpPre,
+    LdpPost,
+    StpPost,
+    Ldnp,
+    Stnp,
+    Ldxr, // size, rd = Rt, rn = base
+    Ldaxr,
+    Stxr, // rs = status register (W)
+    Stlxr,
+    Ldar,
+    Ldlar,
+    Stlr,
+    Stllr,
+    Cas, // rs = compare/result register, rd = Rt (new value), acq / rel
+    Ldadd, // rs = operand register, rd = Rt (loaded old value), acq / rel
+    Ldclr,
+    Ldeor,
+    Ldset,
+    Ldsmax,
+    Ldsmin,
+    Ldumax,
+    Ldumin,
+    Swp,
+    // --- scalar floating point. size = precision in bytes (2,4,8)
+    Fmov, // register to register, same precision
+    Fabs,
+    Fneg,
+    Fsqrt,
+    Fcvt, // size = source precision, imm2 = destination precision (bytes)
+    Frintn,
+    Frintp,
+    Frintm,
+    Frintz,
+    Frinta,
+    Frintx,
+    Frinti,
+    Fmul,
+    Fdiv,
+    Fadd,
+    Fsub,
+    Fmax,
+    Fmin,
+    Fmaxnm,
+    Fminnm,
+    Fnmul,
+    Fcmp, // rm = R::None for the compare-with-zero form
+    Fcmpe,
+    Fcsel,
+    // FP <-> integer: sf = GPR width, size = FP precision
+    Fcvtns,
+    Fcvtnu,
+    Scvtf,
+    Ucvtf,
+    Fcvtas,
+    Fcvtau,
+    FmovToGpr, // rd = GPR, rn = V
+    FmovToFpr, // rd = V, rn = GPR
+    Fcvtps,
+    Fcvtpu,
+    Fcvtms,
+    Fcvtmu,
+    Fcvtzs,
+    Fcvtzu,
+    // --- Advanced SIMD (the few offered). size = element bytes, opt = Q
+    Cnt,
+    Addv,
+    Saddlv,
+    Uaddlv,
 }
 
 /// Flat decoded form. Unused fields keep their `Insn::new` value.
 #[derive(Copy, Clone, PartialEq, Eq, Debug)]
 pub struct Insn {
     pub op: Op,
-    pub sf: u8, // operand size 32 / 64 (0 if not applicable)
-    pub rd: R,
+    pub sf: u8,   // GPR operand size 32 / 64 (0 if not applicable)
+    pub size: u8, // memory access / FP precision / SIMD element size in bytes (0 if not applicable)
+    pub rd: R,    // Rd, or Rt of loads/stores/compare-and-branch
     pub rn: R,
     pub rm: R,
     pub ra: R,
+    pub rt2: R,
+    pub rs: R,
     pub imm: i64,  // primary immediate, fully decoded (shifted / scaled / sign-extended)
-    pub imm2: i64, // secondary immediate (shift amount, lsb, ...)
+    pub imm2: i64, // secondary immediate (shift amount, imms, bit number ...)
     pub cond: u8,
-    pub opt: u8, // shift type / extend option / misc
+    pub opt: u8, // shift type / extend option / Q
+    pub sign: bool,
+    pub acq: bool,
+    pub rel: bool,
 }
 
 impl Insn {
     pub const fn new(op: Op) -> Insn {
-        Insn { op, sf: 0, rd: R::None, rn: R::None, rm: R::None, ra: R::None, imm: 0, imm2: 0, cond: 0, opt: 0 }
+        Insn {
+            op,
+            sf: 0,
+            size: 0,
+            rd: R::None,
+            rn: R::None,
+            rm: R::None,
+            ra: R::None,
+            rt2: R::None,
+            rs: R::None,
+            imm: 0,
+            imm2: 0,
+            cond: 0,
+            opt: 0,
+            sign: false,
+            acq: false,
+            rel: false,
+        }
     }
 }
+
+const UNKNOWN: Insn = Insn::new(Op::Unknown);
 
 fn bits(w: u32, hi: u32, lo: u32) -> u32 {
     (w >> lo) & ((1u32 << (hi - lo + 1)) - 1)
 }
+fn bit(w: u32, n: u32) -> u32 {
+    (w >> n) & 1
+}
 fn r_sp(n: u32) -> R {
-    if n == 31 { R::Sp } else { R::X(n as u8) }
+    if n == 31 { R::Sp } else { R::X((n & 31) as u8) }
 }
 fn r_zr(n: u32) -> R {
-    if n == 31 { R::Zr } else { R::X(n as u8) }
+    if n == 31 { R::Zr } else { R::X((n & 31) as u8) }
+}
+fn r_v(n: u32) -> R {
+    R::V((n & 31) as u8)
+}
+/// sign-extend the low `n` bits (1 <= n <= 32) of v
+fn sext(v: u32, n: u32) -> i64 {
+    let m = 1u64 << (n - 1);
+    let x = (v as u64) & ((1u64 << n) - 1);
+    ((x ^ m) as i64) - (m as i64)
+}
+fn sfw(sf: u32) -> u8 {
+    if sf == 1 { 64 } else { 32 }
+}
+
+/// Arm ARM shared pseudo-code DecodeBitMasks(N, imms, immr, immediate = TRUE), `wmask` only.
+/// None = the combination is reserved. Result is the 64-bit replicated pattern.
+pub fn decode_bit_masks(n: u32, imms: u32, immr: u32) -> Option<u64> {
+    // len = HighestSetBit(N : NOT(imms))
+    let v = ((n & 1) << 6) | (!imms & 0x3f);
+    let len: u32 = if v & 0x40 != 0 {
+        6
+    } else if v & 0x20 != 0 {
+        5
+    } else if v & 0x10 != 0 {
+        4
+    } else if v & 0x08 != 0 {
+        3
+    } else if v & 0x04 != 0 {
+        2
+    } else if v & 0x02 != 0 {
+        1
+    } else {
+        return None;
+    };
+    let esize: u32 = 1 << len;
+    let levels: u32 = esize - 1;
+    let s = imms & levels;
+    let r = immr & levels;
+    if s == levels {
+        return None;
+    }
+    // welem = ZeroExtend(Ones(S + 1), esize);  S + 1 <= 63
+    let welem: u64 = (1u64 << (s + 1)) - 1;
+    let emask: u64 = if esize == 64 { u64::MAX } else { (1u64 << esize) - 1 };
+    // ROR(welem, R) within esize bits
+    let rot: u64 = if r == 0 { welem } else { ((welem >> r) | (welem << (esize - r))) & emask };
+    // Replicate(rot, 64 / esize), doubling by hand
+    let mut m = rot;
+    if esize <= 2 {
+        m |= m << 2;
+    }
+    if esize <= 4 {
+        m |= m << 4;
+    }
+    if esize <= 8 {
+        m |= m << 8;
+    }
+    if esize <= 16 {
+        m |= m << 16;
+    }
+    if esize <= 32 {
+        m |= m << 32;
+    }
+    Some(m)
 }
 
 pub fn decode(w: u32) -> Insn {
-    // C4.1.86 Data Processing -- Immediate: op0 = bits 28:26 = 100
-    if bits(w, 28, 26) == 0b100 {
-        // Add/subtract (immediate): bits 25:23 = 010
-        if bits(w, 25, 23) == 0b010 {
-            let sf = bits(w, 31, 31);
-            let op = bits(w, 30, 30);
-            let s = bits(w, 29, 29);
-            let sh = bits(w, 22, 22);
+    let op0 = bits(w, 28, 25);
+    if op0 & 0b1110 == 0b1000 {
+        return dp_imm(w);
+    }
+    if op0 & 0b1110 == 0b1010 {
+        return branch_sys(w);
+    }
+    if op0 & 0b0101 == 0b0100 {
+        return ldst(w);
+    }
+    if op0 & 0b0111 == 0b0101 {
+        return dp_reg(w);
+    }
+    if op0 & 0b0111 == 0b0111 {
+        return simd_fp(w);
+    }
+    UNKNOWN
+}
+
+// ---------------------------------------------------------------------------------------------
+// C4.1 Data processing -- immediate
+fn dp_imm(w: u32) -> Insn {
+    let sf = bit(w, 31);
+    let rd = bits(w, 4, 0);
+    let rn = bits(w, 9, 5);
+    match bits(w, 25, 23) {
+        0b000 | 0b001 => {
+            // PC-rel. addressing: op immlo 10000 immhi Rd
+            let imm21 = (bits(w, 23, 5) << 2) | bits(w, 30, 29);
+            let off = sext(imm21, 21);
+            let mut i = Insn::new(if sf == 1 { Op::Adrp } else { Op::Adr });
+            i.rd = r_zr(rd);
+            i.imm = if sf == 1 { off << 12 } else { off };
+            i
+        }
+        0b010 => {
+            // Add/subtract (immediate): sf op S 100010 sh imm12 Rn Rd
+            let op = bit(w, 30);
+            let s = bit(w, 29);
+            let sh = bit(w, 22);
             let imm12 = bits(w, 21, 10) as i64;
             let mut i = Insn::new(match (op, s) {
                 (0, 0) => Op::AddImm,
@@ -68,12 +366,1105 @@ pub fn decode(w: u32) -> Insn {
                 (1, 0) => Op::SubImm,
                 _ => Op::SubsImm,
             });
-            i.sf = if sf == 1 { 64 } else { 32 };
-            i.rn = r_sp(bits(w, 9, 5));
-            i.rd = if s == 0 { r_sp(bits(w, 4, 0)) } else { r_zr(bits(w, 4, 0)) };
+            i.sf = sfw(sf);
+            i.rn = r_sp(rn);
+            i.rd = if s == 0 { r_sp(rd) } else { r_zr(rd) };
             i.imm = if sh == 1 { imm12 << 12 } else { imm12 };
-            return i;
+            i
+        }
+        0b100 => {
+            // Logical (immediate): sf opc 100100 N immr imms Rn Rd
+            let opc = bits(w, 30, 29);
+            let n = bit(w, 22);
+            if sf == 0 && n == 1 {
+                return UNKNOWN;
+            }
+            let m = match decode_bit_masks(n, bits(w, 15, 10), bits(w, 21, 16)) {
+                Some(m) => m,
+                None => return UNKNOWN,
+            };
+            let mut i = Insn::new(match opc {
+                0 => Op::AndImm,
+                1 => Op::OrrImm,
+                2 => Op::EorImm,
+                _ => Op::AndsImm,
+            });
+            i.sf = sfw(sf);
+            i.rn = r_zr(rn);
+            i.rd = if opc == 3 { r_zr(rd) } else { r_sp(rd) };
+            i.imm = if sf == 1 { m as i64 } else { (m & 0xffff_ffff) as i64 };
+            i
+        }
+        0b101 => {
+            // Move wide (immediate): sf opc 100101 hw imm16 Rd
+            let opc = bits(w, 30, 29);
+            let hw = bits(w, 22, 21);
+            if opc == 1 || (sf == 0 && hw >= 2) {
+                return UNKNOWN;
+            }
+            let mut i = Insn::new(match opc {
+                0 => Op::Movn,
+                2 => Op::Movz,
+                _ => Op::Movk,
+            });
+            i.sf = sfw(sf);
+            i.rd = r_zr(rd);
+            i.imm = bits(w, 20, 5) as i64;
+            i.imm2 = (hw * 16) as i64;
+            i
+        }
+        0b110 => {
+            // Bitfield: sf opc 100110 N immr imms Rn Rd
+            let opc = bits(w, 30, 29);
+            let n = bit(w, 22);
+            let immr = bits(w, 21, 16);
+            let imms = bits(w, 15, 10);
+            if opc == 3 || n != sf || (sf == 0 && (immr >= 32 || imms >= 32)) {
+                return UNKNOWN;
+            }
+            let mut i = Insn::new(match opc {
+                0 => Op::Sbfm,
+                1 => Op::Bfm,
+                _ => Op::Ubfm,
+            });
+            i.sf = sfw(sf);
+            i.rd = r_zr(rd);
+            i.rn = r_zr(rn);
+            i.imm = immr as i64;
+            i.imm2 = imms as i64;
+            i
+        }
+        0b111 => {
+            // Extract: sf op21 100111 N o0 Rm imms Rn Rd
+            let n = bit(w, 22);
+            let imms = bits(w, 15, 10);
+            if bits(w, 30, 29) != 0 || bit(w, 21) != 0 || n != sf || (sf == 0 && imms >= 32) {
+                return UNKNOWN;
+            }
+            let mut i = Insn::new(Op::Extr);
+            i.sf = sfw(sf);
+            i.rd = r_zr(rd);
+            i.rn = r_zr(rn);
+            i.rm = r_zr(bits(w, 20, 16));
+            i.imm = imms as i64;
+            i
+        }
+        _ => UNKNOWN, // 011: add/sub immediate with tags
+    }
+}
+
+// ---------------------------------------------------------------------------------------------
+// C4.1 Branches, exception generating and system instructions
+fn branch_sys(w: u32) -> Insn {
+    // Unconditional branch (immediate): op 00101 imm26
+    if bits(w, 30, 26) == 0b00101 {
+        let mut i = Insn::new(if bit(w, 31) == 1 { Op::Bl } else { Op::B });
+        i.imm = sext(bits(w, 25, 0), 26) * 4;
+        return i;
+    }
+    // Compare and branch (immediate): sf 011010 op imm19 Rt
+    if bits(w, 30, 25) == 0b011010 {
+        let mut i = Insn::new(if bit(w, 24) == 1 { Op::Cbnz } else { Op::Cbz });
+        i.sf = sfw(bit(w, 31));
+        i.rd = r_zr(bits(w, 4, 0));
+        i.imm = sext(bits(w, 23, 5), 19) * 4;
+        return i;
+    }
+    // Test and branch (immediate): b5 011011 op b40 imm14 Rt
+    if bits(w, 30, 25) == 0b011011 {
+        let mut i = Insn::new(if bit(w, 24) == 1 { Op::Tbnz } else { Op::Tbz });
+        let b5 = bit(w, 31);
+        i.sf = sfw(b5);
+        i.rd = r_zr(bits(w, 4, 0));
+        i.imm2 = ((b5 << 5) | bits(w, 23, 19)) as i64;
+        i.imm = sext(bits(w, 18, 5), 14) * 4;
+        return i;
+    }
+    // Conditional branch (immediate): 0101010 o1 imm19 o0 cond
+    if bits(w, 31, 25) == 0b0101010 {
+        if bit(w, 24) != 0 || bit(w, 4) != 0 {
+            return UNKNOWN;
+        }
+        let mut i = Insn::new(Op::BCond);
+        i.cond = bits(w, 3, 0) as u8;
+        i.imm = sext(bits(w, 23, 5), 19) * 4;
+        return i;
+    }
+    // Exception generation: 11010100 opc imm16 op2 LL
+    if bits(w, 31, 24) == 0b1101_0100 {
+        let opc = bits(w, 23, 21);
+        let op2 = bits(w, 4, 2);
+        let ll = bits(w, 1, 0);
+        if op2 != 0 {
+            return UNKNOWN;
+        }
+        let op = match (opc, ll) {
+            (0b000, 0b01) => Op::Svc,
+            (0b000, 0b10) => Op::Hvc,
+            (0b000, 0b11) => Op::Smc,
+            (0b001, 0b00) => Op::Brk,
+            (0b010, 0b00) => Op::Hlt,
+            _ => return UNKNOWN,
+        };
+        let mut i = Insn::new(op);
+        i.imm = bits(w, 20, 5) as i64;
+        return i;
+    }
+    // System: 1101010100 L op0 op1 CRn CRm op2 Rt
+    if bits(w, 31, 22) == 0b11_0101_0100 {
+        let l = bit(w, 21);
+        let sop0 = bits(w, 20, 19);
+        let sop1 = bits(w, 18, 16);
+        let crn = bits(w, 15, 12);
+        let crm = bits(w, 11, 8);
+        let sop2 = bits(w, 7, 5);
+        let rt = bits(w, 4, 0);
+        if l == 0 && sop0 == 0 && sop1 == 0b011 && rt == 31 {
+            if crn == 0b0010 {
+                let mut i = Insn::new(Op::Hint);
+                i.imm = ((crm << 3) | sop2) as i64;
+                return i;
+            }
+            if crn == 0b0011 {
+                let op = match sop2 {
+                    0b010 => Op::Clrex,
+                    0b100 => Op::Dsb,
+                    0b101 => Op::Dmb,
+                    0b110 => Op::Isb,
+                    _ => return UNKNOWN,
+                };
+                let mut i = Insn::new(op);
+                i.imm = crm as i64;
+                return i;
+            }
+        }
+        return UNKNOWN;
+    }
+    // Unconditional branch (register): 1101011 opc op2 op3 Rn op4
+    if bits(w, 31, 25) == 0b1101011 {
+        if bits(w, 20, 16) != 0b11111 || bits(w, 15, 10) != 0 || bits(w, 4, 0) != 0 {
+            return UNKNOWN;
+        }
+        let op = match bits(w, 24, 21) {
+            0b0000 => Op::Br,
+            0b0001 => Op::Blr,
+            0b0010 => Op::Ret,
+            _ => return UNKNOWN,
+        };
+        let mut i = Insn::new(op);
+        i.rn = r_zr(bits(w, 9, 5));
+        return i;
+    }
+    UNKNOWN
+}
+
+// ---------------------------------------------------------------------------------------------
+// C4.1 Loads and stores
+fn ldst(w: u32) -> Insn {
+    match bits(w, 29, 28) {
+        0b00 => {
+            if bit(w, 26) == 0 && bit(w, 24) == 0 {
+                ldst_exclusive(w)
+            } else {
+                UNKNOWN // SIMD structure loads/stores, LDAPUR/STLUR
+            }
+        }
+        0b01 => {
+            if bit(w, 24) == 0 {
+                ldr_literal(w)
+            } else {
+                UNKNOWN
+            }
+        }
+        0b10 => ldst_pair(w),
+        _ => ldst_reg(w),
+    }
+}
+
+fn access_bytes(size: u32) -> u8 {
+    match size & 3 {
+        0 => 1,
+        1 => 2,
+        2 => 4,
+        _ => 8,
+    }
+}
+
+// size 001000 o2 L o1 Rs o0 Rt2 Rn Rt
+fn ldst_exclusive(w: u32) -> Insn {
+    let size = bits(w, 31, 30);
+    let o2 = bit(w, 23);
+    let l = bit(w, 22);
+    let o1 = bit(w, 21);
+    let rs = bits(w, 20, 16);
+    let o0 = bit(w, 15);
+    let rt2 = bits(w, 14, 10);
+    let rn = bits(w, 9, 5);
+    let rt = bits(w, 4, 0);
+    let bytes = access_bytes(size);
+    let width = if size == 3 { 64 } else { 32 };
+    if rt2 != 31 {
+        return UNKNOWN; // pair forms are not modelled; Rt2 is should-be-one elsewhere
+    }
+    let mut i;
+    match (o2, o1) {
+        (0, 0) => {
+            if l == 0 {
+                i = Insn::new(if o0 == 1 { Op::Stlxr } else { Op::Stxr });
+                i.rs = r_zr(rs);
+            } else {
+                if rs != 31 {
+                    return UNKNOWN;
+                }
+                i = Insn::new(if o0 == 1 { Op::Ldaxr } else { Op::Ldxr });
+            }
+        }
+        (1, 0) => {
+            if rs != 31 {
+                return UNKNOWN;
+            }
+            i = Insn::new(match (l, o0) {
+                (0, 0) => Op::Stllr,
+                (0, _) => Op::Stlr,
+                (1, 0) => Op::Ldlar,
+                _ => Op::Ldar,
+            });
+        }
+        (1, 1) => {
+            // CAS family: size 0010001 L 1 Rs o0 11111 Rn Rt
+            i = Insn::new(Op::Cas);
+            i.rs = r_zr(rs);
+            i.acq = l == 1;
+            i.rel = o0 == 1;
+        }
+        _ => return UNKNOWN, // exclusive pair / CASP
+    }
+    i.size = bytes;
+    i.sf = width;
+    i.rd = r_zr(rt);
+    i.rn = r_sp(rn);
+    i
+}
+
+// opc 011 V 00 imm19 Rt
+fn ldr_literal(w: u32) -> Insn {
+    let opc = bits(w, 31, 30);
+    let v = bit(w, 26);
+    let rt = bits(w, 4, 0);
+    let mut i = Insn::new(Op::LdrLit);
+    i.imm = sext(bits(w, 23, 5), 19) * 4;
+    if v == 0 {
+        match opc {
+            0 => {
+                i.size = 4;
+                i.sf = 32;
+            }
+            1 => {
+                i.size = 8;
+                i.sf = 64;
+            }
+            2 => {
+                i.size = 4;
+                i.sf = 64;
+                i.sign = true;
+            }
+            _ => return UNKNOWN, // PRFM
+        }
+        i.rd = r_zr(rt);
+    } else {
+        i.size = match opc {
+            0 => 4,
+            1 => 8,
+            2 => 16,
+            _ => return UNKNOWN,
+        };
+        i.rd = r_v(rt);
+    }
+    i
+}
+
+// opc 101 V 0 mode L imm7 Rt2 Rn Rt
+fn ldst_pair(w: u32) -> Insn {
+    let opc = bits(w, 31, 30);
+    let v = bit(w, 26);
+    let mode = bits(w, 24, 23);
+    let l = bit(w, 22);
+    let imm7 = bits(w, 21, 15);
+    let rt2 = bits(w, 14, 10);
+    let rn = bits(w, 9, 5);
+    let rt = bits(w, 4, 0);
+    let op = match (mode, l) {
+        (0, 0) => Op::Stnp,
+        (0, _) => Op::Ldnp,
+        (1, 0) => Op::StpPost,
+        (1, _) => Op::LdpPost,
+        (2, 0) => Op::StpOff,
+        (2, _) => Op::LdpOff,
+        (_, 0) => Op::StpPre,
+        _ => Op::LdpPre,
+    };
+    let mut i = Insn::new(op);
+    if v == 0 {
+        match opc {
+            0 => {
+                i.size = 4;
+                i.sf = 32;
+            }
+            1 => {
+                // LDPSW (L = 1, not no-allocate); L = 0 is STGP (not modelled)
+                if l == 0 || mode == 0 {
+                    return UNKNOWN;
+                }
+                i.size = 4;
+                i.sf = 64;
+                i.sign = true;
+            }
+            2 => {
+                i.size = 8;
+                i.sf = 64;
+            }
+            _ => return UNKNOWN,
+        }
+        i.rd = r_zr(rt);
+        i.rt2 = r_zr(rt2);
+    } else {
+        i.size = match opc {
+            0 => 4,
+            1 => 8,
+            2 => 16,
+            _ => return UNKNOWN,
+        };
+        i.rd = r_v(rt);
+        i.rt2 = r_v(rt2);
+    }
+    i.rn = r_sp(rn);
+    i.imm = sext(imm7, 7) * (i.size as i64);
+    i
+}
+
+/// size/opc/V of the "load/store register" classes -> (is_load, bytes, gpr width (0 = FP), signed)
+fn ldst_kind(size: u32, v: u32, opc: u32) -> Option<(bool, u8, u8, bool)> {
+    if v == 0 {
+        let bytes = access_bytes(size);
+        match opc {
+            0 => Some((false, bytes, if size == 3 { 64 } else { 32 }, false)),
+            1 => Some((true, bytes, if size == 3 { 64 } else { 32 }, false)),
+            2 => {
+                if size == 3 {
+                    None // PRFM
+                } else {
+                    Some((true, bytes, 64, true))
+                }
+            }
+            _ => {
+                if size >= 2 {
+                    None
+                } else {
+                    Some((true, bytes, 32, true))
+                }
+            }
+        }
+    } else {
+        match opc {
+            0 => Some((false, access_bytes(size), 0, false)),
+            1 => Some((true, access_bytes(size), 0, false)),
+            2 => {
+                if size == 0 {
+                    Some((false, 16, 0, false))
+                } else {
+                    None
+                }
+            }
+            _ => {
+                if size == 0 {
+                    Some((true, 16, 0, false))
+                } else {
+                    None
+                }
+            }
         }
     }
-    Insn::new(Op::Unknown)
+}
+
+fn log2_bytes(b: u8) -> i64 {
+    match b {
+        1 => 0,
+        2 => 1,
+        4 => 2,
+        8 => 3,
+        _ => 4,
+    }
+}
+
+// size 111 V xx opc ...
+fn ldst_reg(w: u32) -> Insn {
+    let size = bits(w, 31, 30);
+    let v = bit(w, 26);
+    let opc = bits(w, 23, 22);
+    let rn = bits(w, 9, 5);
+    let rt = bits(w, 4, 0);
+    if bit(w, 24) == 0 && bit(w, 21) == 1 && bits(w, 11, 10) == 0 {
+        return ldst_atomic(w);
+    }
+    let (is_load, bytes, width, sign) = match ldst_kind(size, v, opc) {
+        Some(k) => k,
+        None => return UNKNOWN,
+    };
+    let mut i = Insn::new(Op::Unknown);
+    i.size = bytes;
+    i.sf = width;
+    i.sign = sign;
+    i.rd = if v == 1 { r_v(rt) } else { r_zr(rt) };
+    i.rn = r_sp(rn);
+    if bit(w, 24) == 1 {
+        // unsigned immediate: size 111 V 01 opc imm12 Rn Rt
+        i.op = if is_load { Op::LdrOff } else { Op::StrOff };
+        i.imm = (bits(w, 21, 10) as i64) << log2_bytes(bytes);
+        return i;
+    }
+    if bit(w, 21) == 0 {
+        // size 111 V 00 opc 0 imm9 mode Rn Rt
+        i.imm = sext(bits(w, 20, 12), 9);
+        i.op = match (bits(w, 11, 10), is_load) {
+            (0b00, true) => Op::Ldur,
+            (0b00, false) => Op::Stur,
+            (0b01, true) => Op::LdrPost,
+            (0b01, false) => Op::StrPost,
+            (0b11, true) => Op::LdrPre,
+            (0b11, false) => Op::StrPre,
+            _ => return UNKNOWN, // unprivileged
+        };
+        return i;
+    }
+    if bits(w, 11, 10) == 0b10 {
+        // register offset: size 111 V 00 opc 1 Rm option S 10 Rn Rt
+        let option = bits(w, 15, 13);
+        if option & 0b010 == 0 {
+            return UNKNOWN;
+        }
+        i.op = if is_load { Op::LdrReg } else { Op::StrReg };
+        i.rm = r_zr(bits(w, 20, 16));
+        i.opt = option as u8;
+        i.imm2 = if bit(w, 12) == 1 { log2_bytes(bytes) } else { 0 };
+        return i;
+    }
+    UNKNOWN
+}
+
+// size 111 V 00 A R 1 Rs o3 opc 00 Rn Rt
+fn ldst_atomic(w: u32) -> Insn {
+    if bit(w, 26) != 0 {
+        return UNKNOWN;
+    }
+    let size = bits(w, 31, 30);
+    let o3 = bit(w, 15);
+    let opc = bits(w, 14, 12);
+    let op = if o3 == 0 {
+        match opc {
+            0 => Op::Ldadd,
+            1 => Op::Ldclr,
+            2 => Op::Ldeor,
+            3 => Op::Ldset,
+            4 => Op::Ldsmax,
+            5 => Op::Ldsmin,
+            6 => Op::Ldumax,
+            _ => Op::Ldumin,
+        }
+    } else if opc == 0 {
+        Op::Swp
+    } else {
+        return UNKNOWN; // LDAPR, ST64B ...
+    };
+    let mut i = Insn::new(op);
+    i.size = access_bytes(size);
+    i.sf = if size == 3 { 64 } else { 32 };
+    i.acq = bit(w, 23) == 1;
+    i.rel = bit(w, 22) == 1;
+    i.rs = r_zr(bits(w, 20, 16));
+    i.rn = r_sp(bits(w, 9, 5));
+    i.rd = r_zr(bits(w, 4, 0));
+    i
+}
+
+// ---------------------------------------------------------------------------------------------
+// C4.1 Data processing -- register
+fn dp_reg(w: u32) -> Insn {
+    let sf = bit(w, 31);
+    let rd = bits(w, 4, 0);
+    let rn = bits(w, 9, 5);
+    let rm = bits(w, 20, 16);
+    if bit(w, 28) == 0 {
+        let imm6 = bits(w, 15, 10);
+        let shift = bits(w, 23, 22);
+        if bit(w, 24) == 0 {
+            // Logical (shifted register): sf opc 01010 shift N Rm imm6 Rn Rd
+            if sf == 0 && imm6 >= 32 {
+                return UNKNOWN;
+            }
+            let mut i = Insn::new(match (bits(w, 30, 29), bit(w, 21)) {
+                (0, 0) => Op::AndSh,
+                (0, _) => Op::BicSh,
+                (1, 0) => Op::OrrSh,
+                (1, _) => Op::OrnSh,
+                (2, 0) => Op::EorSh,
+                (2, _) => Op::EonSh,
+                (_, 0) => Op::AndsSh,
+                _ => Op::BicsSh,
+            });
+            i.sf = sfw(sf);
+            i.rd = r_zr(rd);
+            i.rn = r_zr(rn);
+            i.rm = r_zr(rm);
+            i.opt = shift as u8;
+            i.imm = imm6 as i64;
+            return i;
+        }
+        let op = bit(w, 30);
+        let s = bit(w, 29);
+        if bit(w, 21) == 0 {
+            // Add/subtract (shifted register): sf op S 01011 shift 0 Rm imm6 Rn Rd
+            if shift == 3 || (sf == 0 && imm6 >= 32) {
+                return UNKNOWN;
+            }
+            let mut i = Insn::new(match (op, s) {
+                (0, 0) => Op::AddSh,
+                (0, _) => Op::AddsSh,
+                (1, 0) => Op::SubSh,
+                _ => Op::SubsSh,
+            });
+            i.sf = sfw(sf);
+            i.rd = r_zr(rd);
+            i.rn = r_zr(rn);
+            i.rm = r_zr(rm);
+            i.opt = shift as u8;
+            i.imm = imm6 as i64;
+            return i;
+        }
+        // Add/subtract (extended register): sf op S 01011 opt 1 Rm option imm3 Rn Rd
+        let imm3 = bits(w, 12, 10);
+        if shift != 0 || imm3 > 4 {
+            return UNKNOWN;
+        }
+        let mut i = Insn::new(match (op, s) {
+            (0, 0) => Op::AddExt,
+            (0, _) => Op::AddsExt,
+            (1, 0) => Op::SubExt,
+            _ => Op::SubsExt,
+        });
+        i.sf = sfw(sf);
+        i.rd = if s == 0 { r_sp(rd) } else { r_zr(rd) };
+        i.rn = r_sp(rn);
+        i.rm = r_zr(rm);
+        i.opt = bits(w, 15, 13) as u8;
+        i.imm = imm3 as i64;
+        return i;
+    }
+    // bit 28 = 1
+    if bit(w, 24) == 1 {
+        // Data-processing (3 source): sf op54 11011 op31 Rm o0 Ra Rn Rd
+        if bits(w, 30, 29) != 0 {
+            return UNKNOWN;
+        }
+        let ra = bits(w, 14, 10);
+        let op = match (bits(w, 23, 21), bit(w, 15)) {
+            (0b000, 0) => Op::Madd,
+            (0b000, _) => Op::Msub,
+            (0b001, 0) => Op::Smaddl,
+            (0b001, _) => Op::Smsubl,
+            (0b010, 0) => Op::Smulh,
+            (0b101, 0) => Op::Umaddl,
+            (0b101, _) => Op::Umsubl,
+            (0b110, 0) => Op::Umulh,
+            _ => return UNKNOWN,
+        };
+        let wide = !matches!(op, Op::Madd | Op::Msub);
+        if wide && sf == 0 {
+            return UNKNOWN;
+        }
+        let mut i = Insn::new(op);
+        i.sf = sfw(sf);
+        i.rd = r_zr(rd);
+        i.rn = r_zr(rn);
+        i.rm = r_zr(rm);
+        if matches!(op, Op::Smulh | Op::Umulh) {
+            if ra != 31 {
+                return UNKNOWN;
+            }
+        } else {
+            i.ra = r_zr(ra);
+        }
+        return i;
+    }
+    match bits(w, 23, 21) {
+        0b000 => {
+            // Add/subtract (with carry): sf op S 11010000 Rm 000000 Rn Rd
+            if bits(w, 15, 10) != 0 {
+                return UNKNOWN;
+            }
+            let mut i = Insn::new(match (bit(w, 30), bit(w, 29)) {
+                (0, 0) => Op::Adc,
+                (0, _) => Op::Adcs,
+                (1, 0) => Op::Sbc,
+                _ => Op::Sbcs,
+            });
+            i.sf = sfw(sf);
+            i.rd = r_zr(rd);
+            i.rn = r_zr(rn);
+            i.rm = r_zr(rm);
+            i
+        }
+        0b100 => {
+            // Conditional select: sf op S 11010100 Rm cond op2 Rn Rd
+            if bit(w, 29) != 0 || bit(w, 11) != 0 {
+                return UNKNOWN;
+            }
+            let mut i = Insn::new(match (bit(w, 30), bit(w, 10)) {
+                (0, 0) => Op::Csel,
+                (0, _) => Op::Csinc,
+                (1, 0) => Op::Csinv,
+                _ => Op::Csneg,
+            });
+            i.sf = sfw(sf);
+            i.rd = r_zr(rd);
+            i.rn = r_zr(rn);
+            i.rm = r_zr(rm);
+            i.cond = bits(w, 15, 12) as u8;
+            i
+        }
+        0b110 => {
+            if bit(w, 29) != 0 {
+                return UNKNOWN;
+            }
+            let opcode = bits(w, 15, 10);
+            if bit(w, 30) == 0 {
+                // Data-processing (2 source): sf 0 S 11010110 Rm opcode Rn Rd
+                let op = match opcode {
+                    0b000010 => Op::Udiv,
+                    0b000011 => Op::Sdiv,
+                    0b001000 => Op::Lslv,
+                    0b001001 => Op::Lsrv,
+                    0b001010 => Op::Asrv,
+                    0b001011 => Op::Rorv,
+                    _ => return UNKNOWN,
+                };
+                let mut i = Insn::new(op);
+                i.sf = sfw(sf);
+                i.rd = r_zr(rd);
+                i.rn = r_zr(rn);
+                i.rm = r_zr(rm);
+                i
+            } else {
+                // Data-processing (1 source): sf 1 S 11010110 opcode2 opcode Rn Rd
+                if rm != 0 {
+                    return UNKNOWN;
+                }
+                let op = match (opcode, sf) {
+                    (0b000000, _) => Op::Rbit,
+                    (0b000001, _) => Op::Rev16,
+                    (0b000010, 0) => Op::Rev,
+                    (0b000010, _) => Op::Rev32,
+                    (0b000011, 1) => Op::Rev,
+                    (0b000100, _) => Op::Clz,
+                    (0b000101, _) => Op::Cls,
+                    _ => return UNKNOWN,
+                };
+                let mut i = Insn::new(op);
+                i.sf = sfw(sf);
+                i.rd = r_zr(rd);
+                i.rn = r_zr(rn);
+                i
+            }
+        }
+        _ => UNKNOWN, // conditional compare, rotate-into-flags ...
+    }
+}
+
+// ---------------------------------------------------------------------------------------------
+// C4.1 Data processing -- scalar floating-point and Advanced SIMD
+fn fp_bytes(ftype: u32) -> Option<u8> {
+    match ftype {
+        0b00 => Some(4),
+        0b01 => Some(8),
+        0b11 => Some(2),
+        _ => None,
+    }
+}
+
+fn simd_fp(w: u32) -> Insn {
+    let rd = bits(w, 4, 0);
+    let rn = bits(w, 9, 5);
+    let rm = bits(w, 20, 16);
+    // Advanced SIMD two-register misc / across lanes: 0 Q U 01110 size 1x000 opcode 10 Rn Rd
+    if bit(w, 31) == 0 && bits(w, 28, 24) == 0b01110 && bits(w, 11, 10) == 0b10 {
+        let q = bit(w, 30);
+        let u = bit(w, 29);
+        let size = bits(w, 23, 22);
+        let opcode = bits(w, 16, 12);
+        let grp = bits(w, 21, 17);
+        let mut i;
+        if grp == 0b10000 {
+            if u == 0 && opcode == 0b00101 && size == 0 {
+                i = Insn::new(Op::Cnt);
+            } else {
+                return UNKNOWN;
+            }
+        } else if grp == 0b11000 {
+            let op = match (u, opcode) {
+                (0, 0b11011) => Op::Addv,
+                (0, 0b00011) => Op::Saddlv,
+                (1, 0b00011) => Op::Uaddlv,
+                _ => return UNKNOWN,
+            };
+            if size == 3 || (size == 2 && q == 0) {
+                return UNKNOWN;
+            }
+            i = Insn::new(op);
+        } else {
+            return UNKNOWN;
+        }
+        i.size = access_bytes(size);
+        i.opt = q as u8;
+        i.rd = r_v(rd);
+        i.rn = r_v(rn);
+        return i;
+    }
+    // scalar FP: M 0 S 11110 ftype 1 ...
+    if bits(w, 28, 24) != 0b11110 || bit(w, 30) != 0 || bit(w, 21) != 1 || bit(w, 29) != 0 {
+        return UNKNOWN;
+    }
+    let prec = match fp_bytes(bits(w, 23, 22)) {
+        Some(b) => b,
+        None => return UNKNOWN,
+    };
+    if bits(w, 15, 10) == 0 {
+        // Conversion between floating-point and integer: sf 0 S 11110 ftype 1 rmode opcode 000000 Rn Rd
+        let sf = bit(w, 31);
+        let op = match (bits(w, 20, 19), bits(w, 18, 16)) {
+            (0, 0) => Op::Fcvtns,
+            (0, 1) => Op::Fcvtnu,
+            (0, 2) => Op::Scvtf,
+            (0, 3) => Op::Ucvtf,
+            (0, 4) => Op::Fcvtas,
+            (0, 5) => Op::Fcvtau,
+            (0, 6) => Op::FmovToGpr,
+            (0, 7) => Op::FmovToFpr,
+            (1, 0) => Op::Fcvtps,
+            (1, 1) => Op::Fcvtpu,
+            (2, 0) => Op::Fcvtms,
+            (2, 1) => Op::Fcvtmu,
+            (3, 0) => Op::Fcvtzs,
+            (3, 1) => Op::Fcvtzu,
+            _ => return UNKNOWN,
+        };
+        let mut i = Insn::new(op);
+        i.sf = sfw(sf);
+        i.size = prec;
+        match op {
+            Op::FmovToGpr | Op::FmovToFpr => {
+                // S <-> W, D <-> X, H <-> W/X
+                let ok = (prec == 4 && sf == 0) || (prec == 8 && sf == 1) || prec == 2;
+                if !ok {
+                    return UNKNOWN;
+                }
+            }
+            _ => {}
+        }
+        match op {
+            Op::Scvtf | Op::Ucvtf | Op::FmovToFpr => {
+                i.rd = r_v(rd);
+                i.rn = r_zr(rn);
+            }
+            _ => {
+                i.rd = r_zr(rd);
+                i.rn = r_v(rn);
+            }
+        }
+        return i;
+    }
+    if bit(w, 31) != 0 {
+        return UNKNOWN;
+    }
+    if bits(w, 14, 10) == 0b10000 {
+        // Floating-point data-processing (1 source): 0 0 0 11110 ftype 1 opcode 10000 Rn Rd
+        let opcode = bits(w, 20, 15);
+        let mut i = Insn::new(Op::Unknown);
+        i.size = prec;
+        i.rd = r_v(rd);
+        i.rn = r_v(rn);
+        i.op = match opcode {
+            0b000000 => Op::Fmov,
+            0b000001 => Op::Fabs,
+            0b000010 => Op::Fneg,
+            0b000011 => Op::Fsqrt,
+            0b000100 | 0b000101 | 0b000111 => {
+                let dst = match fp_bytes(opcode & 3) {
+                    Some(b) => b,
+                    None => return UNKNOWN,
+                };
+                if dst == prec {
+                    return UNKNOWN;
+                }
+                i.imm2 = dst as i64;
+                Op::Fcvt
+            }
+            0b001000 => Op::Frintn,
+            0b001001 => Op::Frintp,
+            0b001010 => Op::Frintm,
+            0b001011 => Op::Frintz,
+            0b001100 => Op::Frinta,
+            0b001110 => Op::Frintx,
+            0b001111 => Op::Frinti,
+            _ => return UNKNOWN,
+        };
+        return i;
+    }
+    if bits(w, 13, 10) == 0b1000 {
+        // Floating-point compare: 0 0 0 11110 ftype 1 Rm op 1000 Rn opcode2
+        if bits(w, 15, 14) != 0 {
+            return UNKNOWN;
+        }
+        let opcode2 = bits(w, 4, 0);
+        if opcode2 & 0b00111 != 0 {
+            return UNKNOWN;
+        }
+        let mut i = Insn::new(if opcode2 & 0b10000 != 0 { Op::Fcmpe } else { Op::Fcmp });
+        i.size = prec;
+        i.rn = r_v(rn);
+        if opcode2 & 0b01000 != 0 {
+            if rm != 0 {
+                return UNKNOWN;
+            }
+        } else {
+            i.rm = r_v(rm);
+        }
+        return i;
+    }
+    match bits(w, 11, 10) {
+        0b10 => {
+            // Floating-point data-processing (2 source): 0 0 0 11110 ftype 1 Rm opcode 10 Rn Rd
+            let op = match bits(w, 15, 12) {
+                0b0000 => Op::Fmul,
+                0b0001 => Op::Fdiv,
+                0b0010 => Op::Fadd,
+                0b0011 => Op::Fsub,
+                0b0100 => Op::Fmax,
+                0b0101 => Op::Fmin,
+                0b0110 => Op::Fmaxnm,
+                0b0111 => Op::Fminnm,
+                0b1000 => Op::Fnmul,
+                _ => return UNKNOWN,
+            };
+            let mut i = Insn::new(op);
+            i.size = prec;
+            i.rd = r_v(rd);
+            i.rn = r_v(rn);
+            i.rm = r_v(rm);
+            i
+        }
+        0b11 => {
+            // Floating-point conditional select: 0 0 0 11110 ftype 1 Rm cond 11 Rn Rd
+            let mut i = Insn::new(Op::Fcsel);
+            i.size = prec;
+            i.rd = r_v(rd);
+            i.rn = r_v(rn);
+            i.rm = r_v(rm);
+            i.cond = bits(w, 15, 12) as u8;
+            i
+        }
+        _ => UNKNOWN, // FP immediate, conditional compare
+    }
+}
+
+// ---------------------------------------------------------------------------------------------
+// Rendering in llvm-mc (AArch64, generic syntax, canonical non-alias mnemonics) -- oracle self-test only
+#[cfg(not(kani))]
+pub fn render(i: &Insn) -> String {
+    fn g(r: R, width: u8) -> String {
+        let p = if width == 64 { "x" } else { "w" };
+        match r {
+            R::X(n) => format!("{}{}", p, n),
+            R::Zr => format!("{}zr", p),
+            R::Sp => (if width == 64 { "sp" } else { "wsp" }).to_string(),
+            R::V(n) => format!("v{}", n),
+            R::None => "<none>".to_string(),
+        }
+    }
+    fn f(r: R, bytes: u8) -> String {
+        let p = match bytes {
+            1 => "b",
+            2 => "h",
+            4 => "s",
+            8 => "d",
+            _ => "q",
+        };
+        match r {
+            R::V(n) => format!("{}{}", p, n),
+            other => g(other, 64),
+        }
+    }
+    fn cc(c: u8) -> &'static str {
+        ["eq", "ne", "hs", "lo", "mi", "pl", "vs", "vc", "hi", "ls", "ge", "lt", "gt", "le", "al", "nv"][(c & 15) as usize]
+    }
+    fn sh(t: u8) -> &'static str {
+        ["lsl", "lsr", "asr", "ror"][(t & 3) as usize]
+    }
+    fn ext(t: u8) -> &'static str {
+        ["uxtb", "uxth", "uxtw", "uxtx", "sxtb", "sxth", "sxtw", "sxtx"][(t & 7) as usize]
+    }
+    let w = i.sf;
+    let name = format!("{:?}", i.op).to_lowercase();
+    use Op::*;
+    match i.op {
+        Unknown => "<unknown>".to_string(),
+        AddImm | AddsImm | SubImm | SubsImm => {
+            let m = &name[..name.len() - 3];
+            if i.imm != 0 && i.imm & 0xfff == 0 {
+                format!("{} {}, {}, #{}, lsl #12", m, g(i.rd, w), g(i.rn, w), i.imm >> 12)
+            } else {
+                format!("{} {}, {}, #{}", m, g(i.rd, w), g(i.rn, w), i.imm)
+            }
+        }
+        AndImm | OrrImm | EorImm | AndsImm => {
+            format!("{} {}, {}, #0x{:x}", &name[..name.len() - 3], g(i.rd, w), g(i.rn, w), i.imm as u64)
+        }
+        Movn | Movz | Movk => {
+            if i.imm2 == 0 {
+                format!("{} {}, #{}", name, g(i.rd, w), i.imm)
+            } else {
+                format!("{} {}, #{}, lsl #{}", name, g(i.rd, w), i.imm, i.imm2)
+            }
+        }
+        Sbfm | Bfm | Ubfm => format!("{} {}, {}, #{}, #{}", name, g(i.rd, w), g(i.rn, w), i.imm, i.imm2),
+        Extr => format!("extr {}, {}, {}, #{}", g(i.rd, w), g(i.rn, w), g(i.rm, w), i.imm),
+        Adr | Adrp => format!("{} {}, #{}", name, g(i.rd, 64), i.imm),
+        B | Bl => format!("{} #{}", name, i.imm),
+        BCond => format!("b.{} #{}", cc(i.cond), i.imm),
+        Cbz | Cbnz => format!("{} {}, #{}", name, g(i.rd, w), i.imm),
+        Tbz | Tbnz => format!("{} {}, #{}, #{}", name, g(i.rd, w), i.imm2, i.imm),
+        Br | Blr | Ret => format!("{} {}", name, g(i.rn, 64)),
+        Svc | Hvc | Smc | Brk | Hlt => format!("{} #{}", name, i.imm),
+        Hint => format!("hint #{}", i.imm),
+        Clrex | Dsb | Dmb | Isb => format!("{} #{}", name, i.imm),
+        AddSh | AddsSh | SubSh | SubsSh | AndSh | BicSh | OrrSh | OrnSh | EorSh | EonSh | AndsSh | BicsSh => {
+            let m = &name[..name.len() - 2];
+            if i.imm == 0 && i.opt == 0 {
+                format!("{} {}, {}, {}", m, g(i.rd, w), g(i.rn, w), g(i.rm, w))
+            } else {
+                format!("{} {}, {}, {}, {} #{}", m, g(i.rd, w), g(i.rn, w), g(i.rm, w), sh(i.opt), i.imm)
+            }
+        }
+        AddExt | AddsExt | SubExt | SubsExt => {
+            let m = &name[..name.len() - 3];
+            let mw = if w == 64 && (i.opt & 3) == 3 { 64 } else { 32 };
+            format!("{} {}, {}, {}, {} #{}", m, g(i.rd, w), g(i.rn, w), g(i.rm, mw), ext(i.opt), i.imm)
+        }
+        Adc | Adcs | Sbc | Sbcs | Udiv | Sdiv | Lslv | Lsrv | Asrv | Rorv => {
+            format!("{} {}, {}, {}", name, g(i.rd, w), g(i.rn, w), g(i.rm, w))
+        }
+        Csel | Csinc | Csinv | Csneg => {
+            format!("{} {}, {}, {}, {}", name, g(i.rd, w), g(i.rn, w), g(i.rm, w), cc(i.cond))
+        }
+        Rbit | Rev16 | Rev32 | Rev | Clz | Cls => format!("{} {}, {}", name, g(i.rd, w), g(i.rn, w)),
+        Madd | Msub => format!("{} {}, {}, {}, {}", name, g(i.rd, w), g(i.rn, w), g(i.rm, w), g(i.ra, w)),
+        Smaddl | Smsubl | Umaddl | Umsubl => {
+            format!("{} {}, {}, {}, {}", name, g(i.rd, 64), g(i.rn, 32), g(i.rm, 32), g(i.ra, 64))
+        }
+        Smulh | Umulh => format!("{} {}, {}, {}", name, g(i.rd, 64), g(i.rn, 64), g(i.rm, 64)),
+        LdrOff | StrOff | Ldur | Stur | LdrPre | StrPre | LdrPost | StrPost | LdrReg | StrReg | LdrLit => {
+            let load = matches!(i.op, LdrOff | Ldur | LdrPre | LdrPost | LdrReg | LdrLit);
+            let unscaled = matches!(i.op, Ldur | Stur);
+            let base = if load { if unscaled { "ldur" } else { "ldr" } } else if unscaled { "stur" } else { "str" };
+            let isv = matches!(i.rd, R::V(_));
+            let suffix = if isv {
+                ""
+            } else {
+                match (i.size, i.sign) {
+                    (1, false) => "b",
+                    (1, true) => "sb",
+                    (2, false) => "h",
+                    (2, true) => "sh",
+                    (4, true) => "sw",
+                    _ => "",
+                }
+            };
+            let rt = if isv { f(i.rd, i.size) } else { g(i.rd, w) };
+            let m = format!("{}{}", base, suffix);
+            match i.op {
+                LdrOff | StrOff | Ldur | Stur => format!("{} {}, [{}, #{}]", m, rt, g(i.rn, 64), i.imm),
+                LdrPre | StrPre => format!("{} {}, [{}, #{}]!", m, rt, g(i.rn, 64), i.imm),
+                LdrPost | StrPost => format!("{} {}, [{}], #{}", m, rt, g(i.rn, 64), i.imm),
+                LdrLit => format!("{} {}, #{}", m, rt, i.imm),
+                _ => {
+                    let mw = if i.opt & 1 == 1 { 64 } else { 32 };
+                    let e = if i.opt == 3 { "lsl" } else { ext(i.opt) };
+                    if i.imm2 == 0 && i.opt == 3 {
+                        format!("{} {}, [{}, {}]", m, rt, g(i.rn, 64), g(i.rm, mw))
+                    } else if i.imm2 == 0 {
+                        format!("{} {}, [{}, {}, {}]", m, rt, g(i.rn, 64), g(i.rm, mw), e)
+                    } else {
+                        format!("{} {}, [{}, {}, {} #{}]", m, rt, g(i.rn, 64), g(i.rm, mw), e, i.imm2)
+                    }
+                }
+            }
+        }
+        LdpOff | StpOff | LdpPre | StpPre | LdpPost | StpPost | Ldnp | Stnp => {
+            let isv = matches!(i.rd, R::V(_));
+            let (a, b) = if isv { (f(i.rd, i.size), f(i.rt2, i.size)) } else { (g(i.rd, w), g(i.rt2, w)) };
+            let m = match i.op {
+                Ldnp => "ldnp",
+                Stnp => "stnp",
+                LdpOff | LdpPre | LdpPost => if i.sign { "ldpsw" } else { "ldp" },
+                _ => "stp",
+            };
+            match i.op {
+                LdpPre | StpPre => format!("{} {}, {}, [{}, #{}]!", m, a, b, g(i.rn, 64), i.imm),
+                LdpPost | StpPost => format!("{} {}, {}, [{}], #{}", m, a, b, g(i.rn, 64), i.imm),
+                _ => format!("{} {}, {}, [{}, #{}]", m, a, b, g(i.rn, 64), i.imm),
+            }
+        }
+        Ldxr | Ldaxr | Ldar | Ldlar | Stlr | Stllr => {
+            let sfx = match i.size { 1 => "b", 2 => "h", _ => "" };
+            format!("{}{} {}, [{}]", name, sfx, g(i.rd, w), g(i.rn, 64))
+        }
+        Stxr | Stlxr => {
+            let sfx = match i.size { 1 => "b", 2 => "h", _ => "" };
+            format!("{}{} {}, {}, [{}]", name, sfx, g(i.rs, 32), g(i.rd, w), g(i.rn, 64))
+        }
+        Cas | Ldadd | Ldclr | Ldeor | Ldset | Ldsmax | Ldsmin | Ldumax | Ldumin | Swp => {
+            let ar = match (i.acq, i.rel) { (false, false) => "", (true, false) => "a", (false, true) => "l", _ => "al" };
+            let sfx = match i.size { 1 => "b", 2 => "h", _ => "" };
+            format!("{}{}{} {}, {}, [{}]", name, ar, sfx, g(i.rs, w), g(i.rd, w), g(i.rn, 64))
+        }
+        Fmov | Fabs | Fneg | Fsqrt | Frintn | Frintp | Frintm | Frintz | Frinta | Frintx | Frinti => {
+            format!("{} {}, {}", name, f(i.rd, i.size), f(i.rn, i.size))
+        }
+        Fcvt => format!("fcvt {}, {}", f(i.rd, i.imm2 as u8), f(i.rn, i.size)),
+        Fmul | Fdiv | Fadd | Fsub | Fmax | Fmin | Fmaxnm | Fminnm | Fnmul => {
+            format!("{} {}, {}, {}", name, f(i.rd, i.size), f(i.rn, i.size), f(i.rm, i.size))
+        }
+        Fcmp | Fcmpe => match i.rm {
+            R::None => format!("{} {}, #0.0", name, f(i.rn, i.size)),
+            _ => format!("{} {}, {}", name, f(i.rn, i.size), f(i.rm, i.size)),
+        },
+        Fcsel => format!("fcsel {}, {}, {}, {}", f(i.rd, i.size), f(i.rn, i.size), f(i.rm, i.size), cc(i.cond)),
+        Scvtf | Ucvtf => format!("{} {}, {}", name, f(i.rd, i.size), g(i.rn, w)),
+        FmovToFpr => format!("fmov {}, {}", f(i.rd, i.size), g(i.rn, w)),
+        FmovToGpr => format!("fmov {}, {}", g(i.rd, w), f(i.rn, i.size)),
+        Fcvtns | Fcvtnu | Fcvtas | Fcvtau | Fcvtps | Fcvtpu | Fcvtms | Fcvtmu | Fcvtzs | Fcvtzu => {
+            format!("{} {}, {}", name, g(i.rd, w), f(i.rn, i.size))
+        }
+        Cnt | Addv | Saddlv | Uaddlv => {
+            let lanes = (if i.opt == 1 { 16 } else { 8 }) / (i.size as u32).max(1);
+            let el = match i.size { 1 => "b", 2 => "h", 4 => "s", _ => "d" };
+            let rn = match i.rn { R::V(n) => format!("v{}.{}{}", n, lanes, el), o => g(o, 64) };
+            match i.op {
+                Cnt => {
+                    let rd = match i.rd { R::V(n) => format!("v{}.{}{}", n, lanes, el), o => g(o, 64) };
+                    format!("cnt {}, {}", rd, rn)
+                }
+                Addv => format!("addv {}, {}", f(i.rd, i.size), rn),
+                _ => format!("{} {}, {}", name, f(i.rd, i.size * 2), rn),
+            }
+        }
+    }
 }
